@@ -1,11 +1,12 @@
 (* The executor model produces what the specification's ExecuteSelectionSet /
    ExecuteField / CompleteValue relation (Spec/ExecSpec.v) allows. *)
-From PyGql Require Import Spec.ExecSpec Proofs.ExecProofs Proofs.ExecCollectProofs.
+From PyGql Require Import Spec.ExecSpec Proofs.ExecProofs Proofs.ExecCollectProofs Proofs.ExecRejProofs.
 
 Arguments field_definition : simpl never.
 Arguments resolve_field : simpl never.
 Arguments complete_named : simpl never.
 Arguments collect_for : simpl never.
+Arguments complete_field : simpl never.
 
 Section Sound.
   Variable sch : schema.
@@ -28,6 +29,8 @@ Section Sound.
   Notation SS := (SSel sch coerce_args world tyres G).
   Notation SG := (SGroups sch coerce_args world tyres G).
   Notation SF := (SField_ sch coerce_args world tyres G).
+  Notation SA := (SAbort sch coerce_args world tyres G).
+  Notation SAI := (SAbortItems sch coerce_args world tyres G).
 
   Lemma resolve_type_spec n v rt :
     resolve_type sch tyres n v = Ok rt -> spec_runtime_type sch tyres n v rt.
@@ -52,6 +55,8 @@ Section Sound.
   Section Level.
     Variable sub_exec : str -> pv -> path -> list selection -> result.
     Hypothesis Hsub : forall tn v p sels r, sub_exec tn v p sels = Ok r -> SS tn v p sels (fst r) (snd r).
+    Hypothesis HsubR : forall tn v p sels k q, sub_exec tn v p sels = Rejected k q ->
+                                               k = REJ_COERCION /\ forall g, ~ G tn sels g.
 
     Lemma complete_items_spec nodes t (f : path -> pv -> result) :
       (forall p x r, f p x = Ok r -> SC nodes t p x (fst r) (snd r)) ->
@@ -104,6 +109,74 @@ Section Sound.
         apply SC_nonnull_null. exact H1.
     Qed.
 
+    (* a rejection inside complete_value is an abort of the specification relation *)
+    Lemma complete_items_abort nodes t (f : path -> pv -> result) (fe : path -> pv -> list error) :
+      (forall p x r, f p x = Ok r -> SC nodes t p x (fst r) (snd r)) ->
+      (forall p x k q, f p x = Rejected k q -> SA nodes t p x (fe p x)) ->
+      forall items p i k q, complete_items f p i items = Rejected k q ->
+                            SAI nodes t p i items (items_partial f fe p i items).
+    Proof.
+      intros Hf Hr. induction items as [|x items IH]; intros p i k q H; simpl in H; [discriminate|]. simpl.
+      destruct (f (p ++ [PIdx i]) x) as [r| |k1 q1|k1] eqn:E1; simpl in H; try discriminate.
+      - destruct (complete_items f p (N.succ i) items) eqn:E2; simpl in H; try discriminate.
+        eapply SAI_later; [apply Hf; exact E1|eapply IH; exact E2].
+      - apply SAI_here. eapply Hr; exact E1.
+    Qed.
+
+    Lemma complete_value_abort nodes : forall t p v k q,
+      complete_value sch tyres sub_exec nodes t p v = Rejected k q ->
+      SA nodes t p v (complete_value_partial sch tyres sub_exec nodes t p v).
+    Proof.
+      induction t as [n|t IH|t IH]; intros p v k q H; simpl in H; simpl.
+      - assert (Hv : v <> PNone) by (intros ->; discriminate).
+        assert (H' : complete_named sch tyres sub_exec nodes n p v = Rejected k q) by (destruct v; try discriminate; exact H).
+        clear H. unfold complete_named in H'.
+        destruct (get_type sch n) as [[fs ifs|fs|ts|vals|sk|]|] eqn:Eg; try discriminate.
+        + eapply SA_object; [exact Hv|exact Eg|]. eapply HsubR; exact H'.
+        + destruct (resolve_type sch tyres n v) as [rt| | |] eqn:Er; simpl in H'; try discriminate;
+            [|exfalso; eapply resolve_type_not_rej; exact Er].
+          eapply SA_abstract; [exact Hv|unfold is_abstract; rewrite Eg; reflexivity|apply resolve_type_spec; exact Er|].
+          eapply HsubR; exact H'.
+        + destruct (resolve_type sch tyres n v) as [rt| | |] eqn:Er; simpl in H'; try discriminate;
+            [|exfalso; eapply resolve_type_not_rej; exact Er].
+          eapply SA_abstract; [exact Hv|unfold is_abstract; rewrite Eg; reflexivity|apply resolve_type_spec; exact Er|].
+          eapply HsubR; exact H'.
+        + destruct (hashable v); [|discriminate]. exfalso. eapply of_ser_not_rej; exact H'.
+        + exfalso. eapply of_ser_not_rej; exact H'.
+      - assert (Hv : v <> PNone) by (intros ->; discriminate).
+        assert (H' : match iter_items v with
+                     | None => Crash CRASH_RUNTIME
+                     | Some items => do r <- complete_items (complete_value sch tyres sub_exec nodes t) p 0%N items;
+                                     Ok (PList (fst r), snd r)
+                     end = Rejected k q) by (destruct v; try discriminate; exact H).
+        assert (Hp : complete_value_partial sch tyres sub_exec nodes (RList t) p v =
+                     match iter_items v with
+                     | None => []
+                     | Some items => items_partial (complete_value sch tyres sub_exec nodes t)
+                                                   (complete_value_partial sch tyres sub_exec nodes t) p 0%N items
+                     end) by (destruct v; try reflexivity; exfalso; apply Hv; reflexivity).
+        simpl in Hp. rewrite Hp. clear Hp H.
+        destruct (iter_items v) as [items|] eqn:Ei; [|discriminate].
+        destruct (complete_items (complete_value sch tyres sub_exec nodes t) p 0%N items) eqn:Ec; simpl in H'; try discriminate.
+        eapply SA_list; [exact Hv|exact Ei|].
+        eapply complete_items_abort; [intros; apply complete_value_spec; assumption|intros; eapply IH; eassumption|exact Ec].
+      - destruct (complete_value sch tyres sub_exec nodes t p v) eqn:E; simpl in H; try discriminate.
+        + destruct (fst a); discriminate.
+        + apply SA_nonnull. eapply IH; exact E.
+    Qed.
+
+    Lemma complete_field_spec tname parent k fd node nodes p args x r :
+      coerce_args fd node = Ok args -> spec_resolved world tname parent k fd p args (RVal x) ->
+      complete_field sch tyres sub_exec (node :: nodes) (f_type fd) p x = Ok r ->
+      SF tname parent k fd (node :: nodes) p (fst r) (snd r).
+    Proof.
+      intros Ec Hr. unfold complete_field.
+      destruct (complete_value sch tyres sub_exec (node :: nodes) (f_type fd) p x) as [c| |k1 q1|k1] eqn:E; try discriminate.
+      - intros H; inversion H; subst. eapply SFd_value; [exact Ec|exact Hr|apply complete_value_spec; exact E].
+      - destruct (Nat.eqb k1 REJ_COERCION); [|discriminate]. intros H; inversion H; subst. simpl.
+        eapply SFd_abort; [exact Ec|exact Hr|eapply complete_value_abort; exact E].
+    Qed.
+
     Lemma resolve_field_spec tname parent k fd nodes p r :
       resolve_field sch coerce_args world tyres sub_exec tname parent k fd nodes p = Ok r ->
       SF tname parent k fd nodes p (fst r) (snd r).
@@ -112,12 +185,10 @@ Section Sound.
       destruct (coerce_args fd node) as [args| |c q|] eqn:Ec; try discriminate.
       - destruct k; try discriminate.
         + destruct (world p parent tname (f_name fd) args) eqn:Ew; try discriminate.
-          * intros H. eapply SFd_value; [exact Ec| |apply complete_value_spec; exact H].
-            simpl. rewrite Ew. reflexivity.
-          * intros H. eapply SFd_value; [exact Ec| |apply complete_value_spec; exact H].
-            simpl. rewrite Ew. reflexivity.
+          * intros H. eapply complete_field_spec; [exact Ec| |exact H]. simpl. rewrite Ew. reflexivity.
+          * intros H. eapply complete_field_spec; [exact Ec| |exact H]. simpl. rewrite Ew. reflexivity.
           * intros H; inversion H; subst. simpl. eapply SFd_error; [exact Ec|]. simpl. rewrite Ew. reflexivity.
-        + intros H. eapply SFd_value; [exact Ec| |apply complete_value_spec; exact H]. reflexivity.
+        + intros H. eapply complete_field_spec; [exact Ec| |exact H]. reflexivity.
       - intros H; inversion H; subst. simpl. eapply SFd_coercion. exact Ec.
     Qed.
 
@@ -162,6 +233,14 @@ Section Sound.
     Qed.
   End Level.
 
+  Lemma exec_sel_rejected_no_group fuel tname v p sels k q :
+    exec_sel sch frags vs coerce_args world tyres cfuel fuel tname v p sels = Rejected k q ->
+    k = REJ_COERCION /\ forall g, ~ G tname sels g.
+  Proof.
+    intros H. apply exec_sel_rej in H as [Hc Hk]. split; [exact Hk|].
+    intros g [Hg _]. rewrite Hc in Hg. discriminate.
+  Qed.
+
   Theorem exec_sel_spec : forall fuel tname v p sels r,
     exec_sel sch frags vs coerce_args world tyres cfuel fuel tname v p sels = Ok r ->
     SS tname v p sels (fst r) (snd r).
@@ -171,6 +250,6 @@ Section Sound.
     inversion H; subst; simpl. eapply SS_sel.
     - split; [exact Hg|]. intros Hsf. unfold collect_for in Hg.
       eapply collect_is_spec_collect_top; eassumption.
-    - eapply exec_groups_spec; [exact IH|exact He].
+    - eapply exec_groups_spec; [exact IH|intros; eapply exec_sel_rejected_no_group; eassumption|exact He].
   Qed.
 End Sound.
